@@ -945,6 +945,71 @@ fn asym_term(g: &mut SplitMix64, v: usize) -> Term {
     Term { ctor, vars: vec![v], mat, asym: true, edge: false }
 }
 
+/// a term is symmetric iff EVERY entry equals its global-flip partner (all 4^n / 2^n entries)
+fn mat_is_sym(m: &[f64]) -> bool {
+    (0..m.len()).all(|i| m[i] == m[m.len() - 1 - i])
+}
+
+fn two_vars(g: &mut SplitMix64, nv: usize) -> Vec<usize> {
+    let a = g.below(nv as u64) as usize;
+    let mut b = g.below(nv as u64) as usize;
+    while b == a {
+        b = g.below(nv as u64) as usize;
+    }
+    vec![a, b]
+}
+
+/// symmetric full 4x4 matrix on two variables: diagonal (a,b,b,a), exchange x, pair flip y
+fn sym_full2(g: &mut SplitMix64) -> Vec<f64> {
+    let (a, b) = (dy(g), dy(g));
+    let x = if g.coin() { dy(g) } else { 0.0 };
+    let y = if g.chance(1, 3) { dy(g) } else { 0.0 };
+    let mut m = vec![0.0; 16];
+    m[0] = a;
+    m[15] = a;
+    m[5] = b;
+    m[10] = b;
+    m[6] = x;
+    m[9] = x;
+    m[3] = y;
+    m[12] = y;
+    m
+}
+
+/// multi-variable asymmetric term; the entry that differs from its global-flip partner lies in
+/// quarter `q` of the index range (all other pairs are symmetric), entries positive where ops live
+fn multi_asym_term(g: &mut SplitMix64, nv: usize, q: usize) -> Term {
+    let bump = 2.0 + dy(g);
+    match g.below(if nv >= 3 { 4 } else { 3 }) {
+        0 | 1 => {
+            // full matrix on two variables (16 entries: quarter q = rows of output state q)
+            let mut m = sym_full2(g);
+            let idx = if g.chance(1, 3) { [3usize, 6, 9, 12][q] } else { 5 * q };
+            m[idx] += bump;
+            Term { ctor: if g.chance(1, 4) { 1 } else { 0 }, vars: two_vars(g, nv), mat: m, asym: true, edge: false }
+        }
+        2 => {
+            // diagonal table on two variables (4 entries)
+            let (a, b) = (dy(g), dy(g));
+            let mut m = vec![a, b, b, a];
+            m[q] += bump;
+            Term { ctor: if g.chance(1, 4) { 3 } else { 2 }, vars: two_vars(g, nv), mat: m, asym: true, edge: false }
+        }
+        _ => {
+            // diagonal table on three variables (8 entries, two per quarter)
+            let (a, b, c, d) = (dy(g), dy(g), dy(g), dy(g));
+            let mut m = vec![a, b, c, d, d, c, b, a];
+            m[2 * q + g.below(2) as usize] += bump;
+            let mut vs: Vec<usize> = (0..nv).collect();
+            while vs.len() > 3 {
+                let i = g.below(vs.len() as u64) as usize;
+                vs.remove(i);
+            }
+            Term { ctor: if g.chance(1, 4) { 3 } else { 2 }, vars: vs, mat: m, asym: true, edge: false }
+        }
+    }
+}
+
 fn gate_scenario(g: &mut SplitMix64, thorough: bool, placement: u64) {
     type Q = DefaultQmc<SharedRng>;
     let nv = g.range(2, if thorough { 5 } else { 4 }) as usize;
@@ -973,6 +1038,11 @@ fn gate_scenario(g: &mut SplitMix64, thorough: bool, placement: u64) {
         let (a, b) = (dy(g), dy(g));
         sym.push(Term { ctor: 0, vars: vec![g.below(nv as u64) as usize], mat: vec![a, b, b, a], asym: false, edge: a == b });
     }
+    // a symmetric full matrix on two variables (diagonal + exchange + pair flip): cluster moves through it
+    if g.chance(1, 3) {
+        let m = sym_full2(g);
+        sym.push(Term { ctor: 0, vars: two_vars(g, nv), mat: m, asym: false, edge: false });
+    }
     // random order of the symmetric terms
     for i in (1..sym.len()).rev() {
         let j = g.below(i as u64 + 1) as usize;
@@ -982,7 +1052,8 @@ fn gate_scenario(g: &mut SplitMix64, thorough: bool, placement: u64) {
     let mut terms = sym;
     for _ in 0..n_asym {
         let v = g.below(nv as u64) as usize;
-        let t = asym_term(g, v);
+        // single-site field term, or a multi-site term whose asymmetry lies in quarter (placement / 4) % 4
+        let t = if g.coin() { asym_term(g, v) } else { multi_asym_term(g, nv, ((placement / 4) % 4) as usize) };
         let pos = match placement % 4 {
             0 => 0,                                   // asymmetric first
             1 => terms.len() / 2,                     // in the middle
@@ -991,7 +1062,12 @@ fn gate_scenario(g: &mut SplitMix64, thorough: bool, placement: u64) {
         };
         terms.insert(pos, t);
     }
-    let any_asym = terms.iter().any(|t| t.asym);
+    for t in &terms {
+        // what the harness registered, judged over ALL entries
+        assert_eq!(t.asym, !mat_is_sym(&t.mat), "harness term flag inconsistent: {:?}", t);
+        stat(&format!("gate.term.{}var.{}.{}", t.vars.len(), if t.ctor < 2 { "full" } else { "diag" }, if t.asym { "asym" } else { "sym" }), 1);
+    }
+    let any_asym = terms.iter().any(|t| !mat_is_sym(&t.mat));
     let any_edge = terms.iter().any(|t| t.edge);
     let rng = SharedRng::new(g.next());
     let st: Vec<bool> = (0..nv).map(|_| g.coin()).collect();
@@ -1130,7 +1206,7 @@ fn gate_scenario(g: &mut SplitMix64, thorough: bool, placement: u64) {
             }
         }
     }
-    stat(&format!("gate.asym_{}.edge_{}.place_{}", any_asym, any_edge, placement % 4), 1);
+    stat(&format!("gate.asym_{}.edge_{}.place_{}.quarter_{}", any_asym, any_edge, placement % 4, (placement / 4) % 4), 1);
     let toks: Vec<String> = terms.iter().map(show_term).collect();
     emit(
         true,
